@@ -373,7 +373,12 @@ class Driver:
                 x = op[2]
                 self.sol.map_pins({op[1]: (self.structure(x[0]), self.pin(x))})
             elif op[0] == "raise":
-                self.sol.maps_all_pins()
+                self.nraise = getattr(self, "nraise", 0) + 1
+                if self.nraise % 2 == 0:
+                    with self.sol:               # the public helper on the active solver (every second time)
+                        lk.raise_pins()
+                else:
+                    self.sol.maps_all_pins()
             elif op[0] == "prune":
                 self.sol.prune()
             elif op[0] == "solve":
